@@ -255,7 +255,7 @@ def corpus(seed, n_generated):
         if len(t) < 700:
             texts.append(t)
     texts += ["foo(a).", "a(X) :- b(X), c(X).", "p :- \\+ q, (r ; s -> t).", "l([H|T], 'it\\'s') :- m(T, [1,2,3], _).",
-              "x(Y) :- Y = f(Z), Z \\= 3, !.\n% comment\n", ":- foo.\nbar(- 1, +(a)).", "t(X) :- X == a ; X > 1.", "v('a\\'b', []).", ""]
+              "x(Y) :- Y = f(Z), Z \\= 3, !.\n% comment\n", "foo(a).\n% second fact\rbar(b).\nbaz(c).\n", "a.\r% c1\r\nb.\r% c2\rc.\n", ":- foo.\nbar(- 1, +(a)).", "t(X) :- X == a ; X > 1.", "v('a\\'b', []).", ""]
     rng = random.Random(77 + seed)
     atoms = ['a', 'foo', 'b_1', "'q r'", '12', '[]']
     vars_ = ['X', 'Y', '_', 'Tail']
